@@ -45,15 +45,39 @@ static std::string expected_body(const ReqSpec& q)
 // completes asynchronously); the thread is captured by the gate and scheduled like the framework's threads
 static bool gAsyncReply = false;
 static std::vector<std::thread> gResponders[NG_MAX_ACTORS]; // one list per creating thread (no lock: no extra ordering)
+// splitReply: the answer is written through the transport in two raw pieces - the first queued by the handler on the
+// event-loop thread, the second written and flushed by a thread of the handler's own - while the connection accepts
+// one write and then answers would-block until it is released
+static bool gSplitReply = false;
 static void reply(Http::ResponseWriter& w, const std::string& body)
 {
+    if (gSplitReply)
+    {
+        std::string wire = "HTTP/1.1 200 OK\r\nConnection: Keep-Alive\r\nContent-Length: " + std::to_string(body.size()) + "\r\n\r\n" + body;
+        size_t cut       = wire.size() - body.size() / 2 - 1;
+        std::string head = wire.substr(0, cut), tail = wire.substr(cut);
+        Tcp::Transport* tr = w.transport_;
+        int fd             = w.peer()->fd();
+        tr->asyncWrite(fd, RawBuffer(head, head.size())).then([](ssize_t) {}, [](std::exception_ptr) {});
+        // (the second piece goes through the transport's mailbox like any write from another thread; the handler's
+        // thread does not call Transport::flush(): that would make it a second consumer of the single-consumer mailbox,
+        // which races with the loop's own drain on the unchanged tree already)
+        auto body2 = [tr, fd, tail]() { tr->asyncWrite(fd, RawBuffer(tail, tail.size())).then([](ssize_t) {}, [](std::exception_ptr) {}); };
+        {
+            sim::TsanIgnore ign; // the harness's own bookkeeping, joined from the controller
+            gResponders[ng_self() < 0 ? 0 : ng_self()].emplace_back(body2);
+        }
+        return;
+    }
     if (!gAsyncReply)
     {
         w.send(Http::Code::Ok, body);
         return;
     }
     auto shared = std::make_shared<Http::ResponseWriter>(std::move(w));
-    gResponders[ng_self() < 0 ? 0 : ng_self()].emplace_back([shared, body]() { shared->send(Http::Code::Ok, body); });
+    auto body1  = [shared, body]() { shared->send(Http::Code::Ok, body); };
+    sim::TsanIgnore ign; // the harness's own bookkeeping, joined from the controller
+    gResponders[ng_self() < 0 ? 0 : ng_self()].emplace_back(body1);
 }
 
 static std::shared_ptr<Rest::Router> make_router()
@@ -127,10 +151,16 @@ static Exec run_one(const std::vector<uint8_t>& prefix, int shutdownAt, vr::Ctx&
         for (int a = 0; a < 1 + W; ++a)
             ng_set_fine(a, 1);
     sim::S().accept_failures = gAcceptFaults;
-    if (gAsyncReply)
+    if (gAsyncReply || gSplitReply)
     {
         sim::TsanIgnore ign;
         sim::S().park_threads_at_start = true; // threads created from now on (the handlers' own) wait to be scheduled
+    }
+    if (gSplitReply)
+    {
+        sim::TsanIgnore ign;
+        sim::S().block_after_sends    = 1;    // a connection takes one write, then answers would-block until released
+        sim::S().epoll_ctl_is_a_point = true; // the window between a critical section and the change of poller interest
     }
     std::vector<ClientState> cl(C);
     std::string trace;
@@ -151,6 +181,7 @@ static Exec run_one(const std::vector<uint8_t>& prefix, int shutdownAt, vr::Ctx&
         }
     };
     bool shutDown = false;
+    int lastActor = -1;
     for (int point = 0; point < (gFine ? 4000 : 400); ++point)
     {
         if (point == shutdownAt)
@@ -162,14 +193,29 @@ static Exec run_one(const std::vector<uint8_t>& prefix, int shutdownAt, vr::Ctx&
             collect(c);
         // enabled actors in canonical order: loops first (acceptor, workers), then clients
         std::vector<int> en;
+        // (splitReply) the thread that ran last comes first while it stays ready: switching away from it is the
+        // deviation, letting it run on is not
+        if (gSplitReply && lastActor >= 0 && sim::actor_ready(lastActor))
+            en.push_back(lastActor);
         for (int a = 0; a < ng_count(); ++a) // acceptor, workers, and (asyncReply) the handlers' own threads
-            if (sim::actor_ready(a))
+            if (sim::actor_ready(a) && !(gSplitReply && a == lastActor))
                 en.push_back(a);
         for (int j = 0; j < C; ++j)
         {
             auto& c = cl[j];
             if (c.next < (int)gScripts[j].size() && !c.awaiting)
                 en.push_back(100 + j);
+        }
+        // a connection that answers would-block starts accepting data again (last in the order: everything else first)
+        std::vector<int> heldFds;
+        if (gSplitReply)
+        {
+            sim::TsanIgnore ign;
+            for (auto& kv : sim::S().held)
+                if (kv.second)
+                    heldFds.push_back(kv.first);
+            for (size_t k = 0; k < heldFds.size(); ++k)
+                en.push_back(300 + (int)k);
         }
         if (en.empty())
         {
@@ -192,8 +238,14 @@ static Exec run_one(const std::vector<uint8_t>& prefix, int shutdownAt, vr::Ctx&
         x.choices.push_back((uint8_t)choice);
         x.nEnabled.push_back((uint8_t)en.size());
         int act = en[choice];
-        trace += (act >= 100 ? "c" + std::to_string(act - 100) : act == 0 ? std::string("A") : act <= W ? "w" + std::to_string(act) : "t" + std::to_string(act)) + " ";
-        if (act < 100)
+        trace += (act >= 300 ? "release" + std::to_string(act - 300) : act >= 100 ? "c" + std::to_string(act - 100) : act == 0 ? std::string("A") : act <= W ? "w" + std::to_string(act) : "t" + std::to_string(act)) + " ";
+        lastActor = act < 100 ? act : -1;
+        if (act >= 300)
+        {
+            sim::release(heldFds[act - 300]);
+            sim::await_readiness(20);
+        }
+        else if (act < 100)
         {
             sim::step_actor(act);
             ++steps;
@@ -283,6 +335,49 @@ static Exec run_one(const std::vector<uint8_t>& prefix, int shutdownAt, vr::Ctx&
         sim::await_readiness(20);
         steps += sim::settle();
     }
+    // the handlers' own threads hold the transport: they are run to their end and joined before the endpoint goes
+    if (gAsyncReply || gSplitReply)
+    {
+        for (int round = 0; round < 400; ++round)
+        {
+            bool all = true;
+            for (int a = 1 + W; a < ng_count(); ++a)
+                if (!ng_has_exited(a))
+                {
+                    all = false;
+                    if (ng_is_parked(a) && sim::actor_ready(a))
+                        sim::step_actor(a);
+                    else if (ng_is_parked(a))
+                    {
+                        // blocked behind a lock held by a framework thread: let that one move
+                        for (int b = 0; b <= W; ++b)
+                            if (sim::actor_ready(b))
+                            {
+                                sim::step_actor(b);
+                                break;
+                            }
+                    }
+                    else
+                        ng_wait_parked(a, 50);
+                }
+            if (all)
+                break;
+        }
+        bool allExited = true;
+        for (int a = 1 + W; a < ng_count(); ++a)
+            allExited &= ng_has_exited(a) != 0;
+        if (allExited)
+        {
+            sim::TsanIgnore ign;
+            for (auto& list : gResponders)
+            {
+                for (auto& t : list)
+                    if (t.joinable())
+                        t.join();
+                list.clear();
+            }
+        }
+    }
     bool stopped = srv.stop();
     for (auto& list : gResponders)
     {
@@ -317,6 +412,7 @@ struct Case
     int acceptFaults = 0;
     bool gatedStart  = false;
     bool asyncReply  = false;
+    bool splitReply  = false;
 };
 static void run_one_noreport(const std::vector<uint8_t>& prefix, vr::Ctx& ctx, uint64_t& steps)
 {
@@ -338,7 +434,7 @@ static void build_scripts()
             std::string tag = std::string(tags[(j * 2 + k) % 6]) + std::to_string(j) + std::to_string(k);
             // both method tables that do not exist (DELETE, PATCH) are hit, from different connections
             // (asyncReply: only requests that reach a handler; otherwise the mix includes the two absent method tables)
-            switch (gSelfTestRace ? (j % 2 ? 0 : 4) : gAsyncReply ? 2 * ((j + k) % 3) : (2 * j + 3 * k + 1) % 5)
+            switch (gSelfTestRace ? (j % 2 ? 0 : 4) : (gAsyncReply || gSplitReply) ? 2 * ((j + k) % 3) : (2 * j + 3 * k + 1) % 5)
             {
             case 0:
                 s.push_back({ "GET", "/g/" + tag, "" });
@@ -428,8 +524,9 @@ static void run_case(uint64_t idx, vr::Ctx& ctx)
     gAcceptFaults = c.acceptFaults;
     gGatedStart   = c.gatedStart;
     gAsyncReply   = c.asyncReply;
+    gSplitReply   = c.splitReply;
     build_scripts();
-    std::string label = std::string(c.asyncReply ? "[handlers answer from threads of their own] " : "") + std::string(c.gatedStart ? "[start-up: threads begin when scheduled] " : "") + std::string(c.fine ? "[threads also yield before every lock] " : "") + (c.acceptFaults ? "[first " + std::to_string(c.acceptFaults) + " accepts fail with EMFILE] " : std::string()) + "w=" + std::to_string(W) + " c=" + std::to_string(C) + " r=" + std::to_string(R) + " D<=" + std::to_string(D) + (c.shutdowns ? " +shutdown-at-every-prefix" : "");
+    std::string label = std::string(c.splitReply ? "[answer in two raw writes: loop thread, then a thread of the handler; connection blocks after one write] " : "") + std::string(c.asyncReply ? "[handlers answer from threads of their own] " : "") + std::string(c.gatedStart ? "[start-up: threads begin when scheduled] " : "") + std::string(c.fine ? "[threads also yield before every lock] " : "") + (c.acceptFaults ? "[first " + std::to_string(c.acceptFaults) + " accepts fail with EMFILE] " : std::string()) + "w=" + std::to_string(W) + " c=" + std::to_string(C) + " r=" + std::to_string(R) + " D<=" + std::to_string(D) + (c.shutdowns ? " +shutdown-at-every-prefix" : "");
     ctx.note(label);
     uint64_t steps = 0, execs = 0, shutdownExecs = 0;
     std::vector<std::vector<uint8_t>> stack;
@@ -511,6 +608,11 @@ int main(int argc, char** argv)
     // handlers that answer from another thread (asynchronous completion), also with shutdown at every point
     gCases.push_back({ 2, 2, 1, 1, false, false, 0, false, true });
     gCases.push_back({ 1, 2, 1, 0, true, false, 0, false, true });
+    // the answer is completed by a thread of the handler's own (second raw write through the mailbox) while the
+    // connection blocks after one write; all threads yield before every lock and every epoll_ctl, and the thread that
+    // ran last runs on for free
+    gCases.push_back({ 1, 1, 1, 1, false, true, 0, false, false, true });
+    gCases.push_back({ 1, 2, 1, 1, false, true, 0, false, false, true });
     gCases.push_back({ 2, 2, 2, 0, true });
     gCases.push_back({ 3, 3, 1, 0, true });
     if (thorough)
